@@ -29,6 +29,7 @@ EXPLANATION = (
     ' A call that names a package class or function directly without its required arguments (call arity) is a TypeError source in the exception summaries the callback rules use.'
     " (R4 retry-store) the transmission counter is only ever assigned '= 0' or '+= 1' in the protocol classes."
     ' (R8) execute() calls send_request at most once per activation and never re-enters itself; _read_from_socket executes the command once.'
+    ' (R9, shared with C05.R2) the retry counter is reset wherever a request ends, so the next request is neither failed early nor granted extra transmissions.'
 )
 
 
@@ -49,6 +50,14 @@ def check(ctx: Ctx, rep: Report):
     retry_stores(ctx, rep)
     rep.rule("C04.R8", "the retries+1 bound of send_request is the bound of the request: execute() calls send_request at most once per activation and never re-enters itself; _read_from_socket executes the command once", 2)
     single_activation(ctx, rep)
+    rep.rule("C04.R9", "every request starts with its whole budget of retries + 1 transmissions: the retry counter is reset wherever a request ends (shared with C05.R2)", 8)
+    from .c05 import r2 as _c05_r2
+    from ..core import Report as _R9
+    _s9 = _R9("C05", rep.tier)
+    _c05_r2(ctx, _s9)
+    for o in _s9.obligations:
+        if o.rule == "C05.R2":
+            rep.obligations.append(type(o)("C04.R9", o.key, o.where, o.what, o.status, o.detail))
     for ci in proto_classes(ctx):
         r7(ctx, rep, ci)
     # ---- R6 shared with C01
